@@ -745,6 +745,83 @@ func c04guardFamily(emit func(c04case)) int {
 	return n
 }
 
+// c04reexecFamily: the SAME loop statement executed several times after it was left early.
+// inner loop (every kind, ascending / descending / long ranges) left by break / continue / an
+// error handled outside the loop / return out of a function called per round / run to the end,
+// with the exit as first or as second statement of the body; nested in an outer loop of every
+// kind (and, for return, in a function called once per outer round).  A loop must start afresh
+// on every execution: state kept from an execution that was left early shows in the iter events.
+func c04reexecFamily(emit func(c04case)) int {
+	n := 0
+	inners := []c04Stmt{
+		{K: "range", A: []int64{1, 4, 1}},
+		{K: "range", A: []int64{3, 1, -1}},
+		{K: "range", A: []int64{0, 9, 3}},
+		{K: "range", A: []int64{2, 2, 1}},
+		{K: "list", A: []int64{7, 8, 9}},
+		{K: "map", Keys: []string{"b", "a", "c"}},
+		{K: "cond", N: 3},
+	}
+	outers := []c04Stmt{
+		{K: "list", A: []int64{1, 2, 3}},
+		{K: "cond", N: 2},
+		{K: "range", A: []int64{1, 2, 1}},
+		{K: "map", Keys: []string{"x", "y"}},
+	}
+	exits := []string{"break", "continue", "raise", "rterr", "return", "none"}
+	for _, in := range inners {
+		for _, ex := range exits {
+			for pos := 0; pos < 2; pos++ {
+				for oi, out := range outers {
+					if ex == "none" && pos == 1 {
+						continue
+					}
+					var body []c04Stmt
+					if pos == 1 {
+						body = append(body, c04mark(70))
+					}
+					switch ex {
+					case "break", "continue":
+						body = append(body, c04Stmt{K: ex})
+					case "raise":
+						body = append(body, c04Stmt{K: "raise", N: 1})
+					case "rterr":
+						body = append(body, c04Stmt{K: "rterr"})
+					case "return":
+						body = append(body, c04Stmt{K: "return", N: 3})
+					}
+					if pos == 0 {
+						body = append(body, c04mark(71))
+					}
+					loop := in
+					loop.Body = body
+					var round []c04Stmt
+					switch ex {
+					case "raise", "rterr":
+						// the error leaves the loop and is handled outside it
+						round = c04blk(c04Stmt{K: "try", Body: c04blk(loop, c04mark(72)),
+							Cl: []c04Clause{{T: []int{}, Bind: 1, H: c04blk(c04mark(73))}}, Fin: c04opt(c04mark(74))})
+					case "return":
+						round = c04blk(c04Stmt{K: "call", Body: c04blk(loop, c04mark(72))})
+					default:
+						round = c04blk(loop, c04mark(72))
+					}
+					o := out
+					o.Body = append(c04blk(c04mark(75)), round...)
+					prog := c04blk(o, c04mark(76))
+					if oi%2 == 1 {
+						// the whole thing inside a function as well
+						prog = c04blk(c04Stmt{K: "call", Body: prog}, c04mark(77))
+					}
+					emit(c04case{Prog: prog, Origin: "reexec"})
+					n++
+				}
+			}
+		}
+	}
+	return n
+}
+
 type c04gen struct {
 	c    *Ctx
 	mark int
@@ -943,7 +1020,7 @@ func c04corpus() [][]c04Stmt {
 }
 
 func runC04(c *Ctx) error {
-	c.Rule = "control skeleton programs (mark / raise T1..T3 / runtime error / return / break / continue / if-elif-else whose guards are literals or logged calls that answer true / false, raise T1..T3 or fail with a runtime error / condition loops (optionally with a condition that finally raises), range, list and map loops, loops over an expression that raises / try with 0..3 except clauses of every shape, otherwise, finally / function call), rendered to ECAL and run by the interpreter: (1) fixed corpus of defect witnesses and tricky shapes, (2a) guards: 5 guard outcomes x first/middle clause x 5 continuations (nothing, elif true, elif false, else, elif false + else) x 4 enclosures, failing loop conditions and failing iterated expressions x body exits x enclosures, (2b) exhaustive: function{loop{try}} with each of 7 exit kinds at each of 4 positions (try block, handler, otherwise, finally) x 16 except-clause shapes x otherwise present/absent x finally present/absent (x 4 loop kinds in the thorough tier, rotating in the quick tier), (3) seeded random nestings up to depth 4 of if/loop/try/function with break/continue only inside a loop of the same function and return only inside a function, ranges terminating; non-trivial = contains an abrupt exit; distinct by skeleton"
+	c.Rule = "control skeleton programs (mark / raise T1..T3 / runtime error / return / break / continue / if-elif-else whose guards are literals or logged calls that answer true / false, raise T1..T3 or fail with a runtime error / condition loops (optionally with a condition that finally raises), range, list and map loops, loops over an expression that raises / try with 0..3 except clauses of every shape, otherwise, finally / function call), rendered to ECAL and run by the interpreter: (1) fixed corpus of defect witnesses and tricky shapes, (2a) guards: 5 guard outcomes x first/middle clause x 5 continuations (nothing, elif true, elif false, else, elif false + else) x 4 enclosures, failing loop conditions and failing iterated expressions x body exits x enclosures, (2b) exhaustive: function{loop{try}} with each of 7 exit kinds at each of 4 positions (try block, handler, otherwise, finally) x 16 except-clause shapes x otherwise present/absent x finally present/absent (x 4 loop kinds in the thorough tier, rotating in the quick tier), (2c) re-executed loops: 7 inner loops (ranges ascending / descending / stepped / single element, list, map, condition) left by break / continue / raise or runtime error handled outside the loop / return out of a function called per round / run to the end, exit first or second in the body, inside 4 outer loop kinds (half of them inside a function as well), (3) seeded random nestings up to depth 4 of if/loop/try/function with break/continue only inside a loop of the same function and return only inside a function, ranges terminating; non-trivial = contains an abrupt exit; distinct by skeleton"
 	c.BeginCases("From Ecal Require Import Model.ControlSyntax Model.Control Spec.ControlSpec Run.RunC04.\nOpen Scope nat_scope.", "case", 250)
 
 	if c.Replay != "" {
@@ -978,7 +1055,7 @@ func runC04(c *Ctx) error {
 		case "corpus":
 			second = append(second, d)
 		case "random":
-			if len(second) < c.Pick(230, 2600) {
+			if len(second) < c.Pick(170, 2600) {
 				second = append(second, d)
 			}
 		default:
@@ -993,6 +1070,7 @@ func runC04(c *Ctx) error {
 	c.Extra["corpus_programs"] = len(c04corpus())
 	c.Extra["guard_family_programs"] = c04guardFamily(emit)
 	c.Extra["exhaustive_programs"] = c04exhaustive(c, emit)
+	c.Extra["reexecuted_loop_programs"] = c04reexecFamily(emit)
 	g := &c04gen{c: c}
 	nrand := c.Pick(400, 12000)
 	for i := 0; i < nrand && !stop; i++ {
